@@ -27,6 +27,14 @@ THEOREMS = [
         "convert_case_insensitive", "registered_any_case", "registered_upper", "canonical_roundtrip_autoware",
         "canonical_roundtrip_trafficLight", "unregistered_unknown", "merge_consistent", "targets_same_mapping",
         "setTargetLists_eq_map", "label_tables_nonempty",
+        # audit round 2: constructor dispatch, witnesses in the traffic-light tables, None / [] target lists
+        "tableFor_mem_tables", "tableFor_error_iff", "trafficLight_table_of_every_task", "trafficLight_tables_witness",
+        "setTargetLists_empty_all",
+        # the DOCUMENTED mapping: tables parsed from docs/en/perception/label.md by the translator on every run
+        "doc_names_lowercase", "documented_rows_autoware", "documented_rows_trafficLight", "documented_tasks_tables",
+        "documented_names_convert_autoware", "documented_names_convert_trafficLight", "doc_exceptions_exact",
+        "registered_names_documented", "undocumented_lists_exact", "doc_merge_consistent", "doc_labels_are_members",
+        "doc_tables_nonempty",
     ]
 ]
 TRUSTED = [
@@ -36,6 +44,9 @@ TRUSTED = [
 ]
 ASSUMPTIONS = [
     "names are ASCII (non-ASCII case folding is out of scope)",
+    "the documented mapping of the Lean theorems is docs/en/perception/label.md of the working tree (PEval.Gen.doc*, re-parsed on every "
+    "run); for the traffic-light family they are stated modulo the rows `red_left_straight` / `red_right_straight` on which document "
+    "and code disagree in the unchanged tree (PEval.C14.docExceptions*, theorem doc_exceptions_exact: finding candidate C14-D1)",
     "AutowareLabel.ANIMAL and TrafficLightLabel.TRAFFIC_LIGHT under classification are produced by no name: the canonical-name law is vacuous for them (DESIGN B4)",
 ]
 
@@ -56,6 +67,30 @@ DOC_AUTOWARE = {
 }
 DOC_NAME2LABEL = {n: l for l, ns in DOC_AUTOWARE.items() for n in ns}
 MERGE = {"TRUCK": "CAR", "BUS": "CAR", "MOTORBIKE": "BICYCLE"}
+
+
+def _doc_marker():
+    """`doc:untranslatable` note when the translator could not parse the documentation tables (then the documented-mapping
+    theorems hold vacuously and only the frozen copy above is used, by the oracle)"""
+    try:
+        from pathlib import Path
+
+        txt = (Path(__file__).resolve().parents[2] / "lean" / "PEval" / "Gen" / "DocLabels.lean").read_text()
+        if "def docLabelsParsed : Bool := true" in txt:
+            return None
+        note = [l for l in txt.splitlines() if l.startswith("def docLabelsNote")]
+        return "doc:untranslatable " + (note[0].split(":=", 1)[1].strip() if note else "")
+    except OSError as e:
+        return f"doc:untranslatable (no generated table: {e})"
+
+
+def _note_doc_marker():
+    """called from corpus(), i.e. after the translator has run: record the marker in the evidence (ASSUMPTIONS)"""
+    m = _doc_marker()
+    if m:
+        line = m + " -- the documented-mapping theorems of C14 are vacuous in this run"
+        if line not in ASSUMPTIONS:
+            ASSUMPTIONS.append(line)
 
 
 def _mods():
@@ -89,6 +124,7 @@ def _settings(tier, rng):
 
 
 def corpus():
+    _note_doc_marker()
     cs = []
     # F6 (fixed): yellow_straight_right / yellow_straight_left_right under classification
     for s in ("yellow_straight_right", "yellow_straight_left_right", "YELLOW_STRAIGHT_RIGHT"):
